@@ -100,7 +100,8 @@ def isValidPragma (p : String) : Bool :=
 
 /-- `is_assignment_target`: can the expression stand on the left of `=`? (TypeScript's type-only wrappers don't matter) -/
 def isAssignmentTarget : Node → Bool
-  | .mk .ident _ _ => true
+  -- modules are strict code: `eval = ...` and `arguments = ...` are syntax errors
+  | .mk .ident as _ => as.head? != some "eval" && as.head? != some "arguments"
   | .mk .member _ _ => true
   | .mk (.other "SuperPropExpression") _ _ => true
   | .mk .paren _ [e] => isAssignmentTarget e
